@@ -259,6 +259,8 @@ func Uneval(props bool, thorough bool) *Set {
 			`{"$defs":{"d":{"properties":{"a":true},"unevaluatedProperties":false}},"$ref":"#/$defs/d","properties":{"b":true}}`,
 			`{"$defs":{"d":{"properties":{"a":true}}},"properties":{"a":{"$ref":"#/$defs/d"}},"unevaluatedProperties":false}`,
 			`{"if":{"properties":{"a":{"properties":{"b":{"const":1}}}},"required":["a"]},"then":{"properties":{"b":true}},"unevaluatedProperties":false}`,
+			`{"$id":"http://h/r.json","$dynamicRef":"ext.json#n","unevaluatedProperties":false,"$defs":{"e":{"$id":"ext.json","$defs":{"x":{"$dynamicAnchor":"n","properties":{"a":true}}}}}}`,
+			`{"$id":"http://h/r.json","anyOf":[{"$dynamicRef":"ext.json#n"}],"unevaluatedProperties":{"type":"integer"},"$defs":{"e":{"$id":"ext.json","$defs":{"x":{"$dynamicAnchor":"n","properties":{"a":true,"b":true}}}}}}`,
 			`{"not":{"not":{"properties":{"a":true}}},"unevaluatedProperties":false}`,
 			`{"oneOf":[{"properties":{"a":true},"required":["a"]},{"properties":{"b":true},"required":["b"]}],"unevaluatedProperties":false}`,
 		} {
@@ -266,6 +268,9 @@ func Uneval(props bool, thorough bool) *Set {
 		}
 	} else {
 		for _, x := range []string{
+			// a $dynamicRef whose anchor no resource of the dynamic scope declares falls back to its lexical target - and still annotates
+			`{"$id":"http://h/r.json","$dynamicRef":"ext.json#n","unevaluatedItems":false,"$defs":{"e":{"$id":"ext.json","$defs":{"x":{"$dynamicAnchor":"n","prefixItems":[true]}}}}}`,
+			`{"$id":"http://h/r.json","allOf":[{"$dynamicRef":"ext.json#n"}],"unevaluatedItems":{"type":"integer"},"$defs":{"e":{"$id":"ext.json","$defs":{"x":{"$dynamicAnchor":"n","prefixItems":[true,true]}}}}}`,
 			// contains with a trivial subschema still evaluates (annotates) the items it matches
 			`{"contains":true,"unevaluatedItems":false}`, `{"contains":{},"unevaluatedItems":false}`, `{"allOf":[{"contains":true}],"unevaluatedItems":false}`, `{"$ref":"#/$defs/c","$defs":{"c":{"contains":{}}},"unevaluatedItems":false}`,
 			`{"contains":true,"minContains":2,"unevaluatedItems":false}`, `{"anyOf":[{"contains":true,"minContains":3},{"prefixItems":[true]}],"unevaluatedItems":{"type":"integer"}}`, `{"contains":false,"minContains":0,"unevaluatedItems":false}`,
